@@ -520,6 +520,6 @@ pub fn run(ctx: &mut Ctx) {
     sets.extend((0..22).map(|b| 1u64 << b));
     sets.extend((0..22).map(|b| 0x3f_ffff & !(1u64 << b) & !8));
     ctx.enumerate("reply_ack_always_offered", sets, |ctx, s| run_reply_ack_offered(ctx, s));
-    let n = ctx.tier.pick(2000u32, 100_000u32);
+    let n = ctx.tier.pick(2000u32, 2_000_000u32);
     ctx.prop_check("reply_ack_random_sets", n, any::<u64>(), |ctx, s| run_reply_ack_offered(ctx, s));
 }
